@@ -7,6 +7,12 @@ CLAIMED = {
  "C01": ("exploration", "deterministic simulation: seeded operation histories against R-STACK + twin per-symbol loop, iterator-error injection",
          "Seeded search over operation histories (encode/decode, all batch/reverse/fallible-iterator forms, export+re-import through four backend kinds, clone, temporary decoders of six kinds) on every (Word,State) of the menu with extreme TableModels and library models; oracles: LIFO equality with the most recent un-popped encode of the same model, exported words restored at every pop, batch forms equal the per-symbol loop, state invariant, re-import never refused. Sampling, not proof.",
          "Trusted base: harness TableModel/FnModel adapters, the trace executor, R-STACK bookkeeping. Models are assumed well-formed (C03 is not decided here).", "DESIGN 3 C01"),
+ "C02": ("exploration", "deterministic simulation: producer -> store -> consumer world in its fault-free configuration, workload steered into carry states by one-step look-ahead and adversarial table synthesis",
+         "Messages (length 0..2000) over every (Word,State) of the menu with per-symbol precision changes are encoded into six sink kinds, sealed, and decoded through eight source kinds; oracles: FIFO equality, empty message => no words, maybe_exhausted after the last symbol, batch forms equal the loop. The generator uses the public encoder state to steer lower/range into Inverted situations (num_inverted>=3), carry / no-carry resolutions, seal-while-inverted and range == threshold.",
+         "This is the fault-free configuration of the channel whose fault-injecting configurations are C09/C10/C11; TableModel trusted; sampling.", "DESIGN 3 C02"),
+ "C11": ("exploration", "deterministic simulation with fault injection: arbitrary words appended after / stored before the sealed message; interval-containment oracle from the unbounded-precision reference at every symbol boundary",
+         "Store appends all-ones / all-zero / random words / the same message again after the sealed words, or the encoder starts on a pre-filled sink; the consumer must decode the original symbols; in addition, at every symbol boundary (each is a sealing point) the R-RANGE reference checks arithmetically that the all-ones and all-zeros continuations of the sealed words stay inside [low, low+range). Adversarial (cum,prob) synthesis drives the encoder into the measure-small region (range barely above its minimum, lower just above a word boundary).",
+         "Trusted base: R-RANGE (big-integer low, ripple carry).", "DESIGN 3 C11"),
  "C04": ("exploration", "deterministic simulation: bits-back histories on arbitrary words against the R-RANS reference",
          "Arbitrary word sequences (incl. zero / all-ones / trailing zero words, length 0) loaded as raw binary, decode k symbols with arbitrary models (any precision sequence), reloads in between, encode back in reverse; oracles: num_valid_bits exact, decode never errs, every decoded symbol and every intermediate state equals the textbook rANS reference, both raw-binary accessors return the original words and agree with each other.",
          "Trusted base: R-RANS reference (validated against the real coder on the fault-free tree and against published vectors), TableModel.", "DESIGN 3 C04"),
@@ -36,7 +42,7 @@ NA = {
  "C15": "pure function of a weight vector (prefix-freeness, Kraft equality, optimality, tie-breaking of Huffman codebooks); no history or fault dimension; see DESIGN section 4",
  "C19": "pure function of constructor input (accept => valid, else fail cleanly); the only fault-injection aspect (garbage parameters must not cause UB) is handled under C20; see DESIGN section 4",
 }
-for pid in ["C02","C05","C10","C11","C13","C14","C16","C17","C20"]:
+for pid in ["C05","C10","C13","C14","C16","C17","C20"]:
     if pid not in CLAIMED:
         PENDING[pid] = "check under construction in this round (design in DESIGN.md section 3); not claimed until its explorer is committed"
 
